@@ -31,6 +31,9 @@ type StructVal struct {
 
 type TupleVal []Value
 
+// ZeroArray is the zero value of an array type (the only array value that is ever stored as a whole).
+type ZeroArray struct{ T types.Type }
+
 type ClosureVal struct {
 	Fn   *ssa.Function
 	Bind []Value
@@ -248,10 +251,15 @@ func (vc *FuncVC) loadAt(st *State, p PtrVal) Value {
 	switch u := p.T.Underlying().(type) {
 	case *types.Struct:
 		sv := &StructVal{T: p.T}
+		if !vc.isLocalStruct(p.T) {
+			return sv
+		}
 		for i := 0; i < u.NumFields(); i++ {
 			sv.F = append(sv.F, vc.loadAt(st, vc.fieldPtr(p, i)))
 		}
 		return sv
+	case *types.Array:
+		return &ZeroArray{T: p.T} // whole-array loads only occur when copying structs that embed (unmodelled) arrays
 	}
 	panic(trError{fmt.Sprintf("load of type %s not supported", p.T)})
 }
@@ -297,9 +305,32 @@ func (vc *FuncVC) storeAt(st *State, p PtrVal, v Value) {
 	case PtrVal:
 		vc.storeLeaf(st, p, vc.ptrTerm(x))
 	case *StructVal:
+		if len(x.F) == 0 {
+			return // opaque external struct
+		}
 		u := p.T.Underlying().(*types.Struct)
 		for i := 0; i < u.NumFields(); i++ {
 			vc.storeAt(st, vc.fieldPtr(p, i), x.F[i])
+		}
+	case *ZeroArray:
+		arr := x.T.Underlying().(*types.Array)
+		if p.Idx != nil {
+			panic(trError{"array inside an indexed location is not supported"})
+		}
+		if arr.Len() == 0 {
+			return
+		}
+		leaves := map[string]bool{}
+		vc.leafHeaps(p.Path+"[]", arr.Elem(), leaves)
+		for _, name := range sortedKeys(leaves) {
+			lt := vc.leafType(arr.Elem(), strings.TrimPrefix(name, p.Path+"[]"))
+			ls := vc.sortOf(lt)
+			hs := ArraySort(SRef, ArraySort(SInt, ls))
+			h := st.heap(vc, name, hs)
+			nh := vc.fresh(st, "H."+name, hs)
+			z := vc.zero(lt).(Term)
+			st.assume(Eq(nh, Store(h, p.Base, Term{fmt.Sprintf("((as const (Array Int %s)) %s)", ls, z.S), ArraySort(SInt, ls)})))
+			st.setHeap(name, nh)
 		}
 	case *ClosureVal:
 		vc.storeLeaf(st, p, vc.closureRef(st, x))
@@ -346,10 +377,15 @@ func (vc *FuncVC) zero(t types.Type) Value {
 		return nilIface
 	case *types.Struct:
 		sv := &StructVal{T: t}
+		if !vc.isLocalStruct(t) {
+			return sv // opaque external struct (sync.Mutex, protoimpl.MessageState, ...): no modelled fields
+		}
 		for i := 0; i < u.NumFields(); i++ {
 			sv.F = append(sv.F, vc.zero(u.Field(i).Type()))
 		}
 		return sv
+	case *types.Array:
+		return &ZeroArray{T: t}
 	}
 	panic(trError{fmt.Sprintf("zero value of %s not supported", t)})
 }
@@ -395,10 +431,15 @@ func (vc *FuncVC) freshValue(st *State, hint string, t types.Type) Value {
 	switch u := t.Underlying().(type) {
 	case *types.Struct:
 		sv := &StructVal{T: t}
+		if !vc.isLocalStruct(t) {
+			return sv
+		}
 		for i := 0; i < u.NumFields(); i++ {
 			sv.F = append(sv.F, vc.freshValue(st, hint+"."+u.Field(i).Name(), u.Field(i).Type()))
 		}
 		return sv
+	case *types.Array:
+		return &ZeroArray{T: t}
 	case *types.Tuple:
 		var tv TupleVal
 		for i := 0; i < u.Len(); i++ {
